@@ -354,9 +354,10 @@ def process_dict_breadth_first(parent_node, type_name, value, func=lambda x, y: 
     :return (list): the collected child nodes
     """
     # we wrap the keys() in a call to list to prevent concurrent changes
-    return [Node(value=NodeValue(func(type_name, key), value[key], key), parent=parent_node) for key in
-            list(value.keys()) if
-            key in value]
+    # the names must be strings, but the keys of a dict can be any hashable value
+    return [Node(value=NodeValue(func(type_name, key if isinstance(key, str) else safe_str(key)), value[key],
+                                 key if isinstance(key, str) else None), parent=parent_node)
+            for key in list(value.keys()) if key in value]
 
 
 def process_list_breadth_first(var_collector: Collector, parent_node: ParentNode, value) -> List[Node]:
